@@ -33,6 +33,10 @@ from .c06 import render, fmt_seq
 from ..loops import Region, SplitNeeded, affine_in
 
 
+# loops the engines summarise on purpose (retry / pause / enumeration loops are judged by the
+# loop rules of this check, not by unrolling)
+EXPECTED_GAPS = {('loop', '*')}
+
 def kw(args, name):
     for a in args:
         if isinstance(a, tuple) and len(a) == 2 and a[0] == name:
